@@ -10,9 +10,12 @@ from harness.framework import Suite
 from harness.swctext import Expect
 
 PID = "C16"
-READY = False
 LEAN_MODS = ["SwcVerif.Props.C16"]
-THEOREMS = []
+THEOREMS = [
+    "C16.cumdist_spec", "C16.linspace_spec", "C16.iso_step_le", "C16.isoPositions_adjust", "C16.isoPositions_zero", "C16.isoPositions_noadjust",
+    "C16.interp_endpoints", "C16.interp_on_segment", "C16.convex_between", "C16.isoResample_columns", "C16.linearResample_columns",
+    "C16.smooth_endpoints_count", "C16.assemble_keeps_interior",
+]
 TRUSTED = ["hand-written rational models Model/Resample.lean of np.interp / linspace / arange, the two branch resamplers, the moving-average smoother and the "
            "branch re-assembly rule (tied by the c16.branch correspondence; values compared with tolerance 1e-5 because the code computes in float32/64)"]
 ASSUMPTIONS = ["segment lengths enter the model as exact numbers (generated polylines are axis-aligned lattice paths); square roots and float rounding are outside",
